@@ -765,6 +765,114 @@ def run(ctx, rep):
                     rep.violation("C16.14", cons, f"`{n.value.id}` comes from a context lookup and may be a {'/'.join(missing)}, which has no `{n.attr}`: AttributeError escapes instead of JaqalError", loc, witness="register q[2]\nmap a q[0]\nmap b a[:]")
     rep.analysed["context_entity_attribute_reads"] = n14
 
+    # ------------------------------------------------------------ C16.15
+    rep.rule("C16.15", "a visitor whose `while` loop waits for its handlers to advance the walk: a handler that delegates inside `for .. in range(n)` treats n <= 0 explicitly (a zero-trip loop advances nothing and the waiting loop never ends)", floor=1)
+    n15 = 0
+    for cq, ci in ix.classes.items():
+        if not T.is_visitor(cq) or any(cq.startswith(m) for m in EXCLUDE):
+            continue
+        waits = []
+        for mname, fi in ci.methods.items():
+            for st in iter_stmts(fi.body):
+                if isinstance(st, ast.While) and any(isinstance(c, ast.Call) and isinstance(c.func, ast.Attribute) and c.func.attr == "visit" for c in ast.walk(st)):
+                    # the condition is visitor state (self.<attr>)
+                    if any(isinstance(m, ast.Attribute) and isinstance(m.value, ast.Name) and m.value.id == fi.params[0] for m in ast.walk(st.test)):
+                        waits.append((fi, st))
+        if not waits:
+            continue
+        for mname, fi in ci.methods.items():
+            if not mname.startswith("visit_"):
+                continue
+            for st in iter_stmts(fi.body):
+                if not (isinstance(st, ast.For) and isinstance(st.iter, ast.Call) and isinstance(st.iter.func, ast.Name) and st.iter.func.id == "range" and st.iter.args):
+                    continue
+                if not any(isinstance(c, ast.Call) and isinstance(c.func, ast.Attribute) and c.func.attr == "visit" for c in ast.walk(st)):
+                    continue
+                n15 += 1
+                count = ast.unparse(st.iter.args[-1] if len(st.iter.args) == 1 else st.iter.args[1])
+                cons = construct_of(fi, f"zero-trip:{count}")
+                loc = f"{fi.path}:{st.lineno}"
+                guard = None
+                for g in iter_stmts(fi.body):
+                    if isinstance(g, ast.If) and g.lineno < st.lineno:
+                        for c in ast.walk(g.test):
+                            if isinstance(c, ast.Compare) and len(c.ops) == 1:
+                                l, r = ast.unparse(c.left), ast.unparse(c.comparators[0])
+                                if (l == count and r in ("0", "1") and isinstance(c.ops[0], (ast.LtE, ast.Lt, ast.Eq))) or (r == count and l in ("0", "1") and isinstance(c.ops[0], (ast.GtE, ast.Gt, ast.Eq))):
+                                    guard = g
+                            if isinstance(c, ast.UnaryOp) and isinstance(c.op, ast.Not) and ast.unparse(c.operand) == count:
+                                guard = g
+                if guard is not None:
+                    rep.ok("C16.15", cons, f"`{ast.unparse(guard.test)}` handles the zero-trip case before the loop", loc)
+                else:
+                    w = waits[0]
+                    rep.violation("C16.15", cons, f"`{ast.unparse(st.iter)}` may run zero times; then nothing advances the state that `while {ast.unparse(w[1].test)}` in {w[0].name} waits on, and execution never returns", loc, witness="register q[1]\nloop 0 { prepare_all; Px q[0]; measure_all }\nprepare_all\nmeasure_all")
+    rep.analysed["zero_trip_sites"] = n15
+
+    # ------------------------------------------------------------ C16.16
+    rep.rule("C16.16", "the process-wide module table (sys.modules) is not left changed by a call: nothing is registered under a name a later absolute import can find, and whatever is evicted comes back when the import fails", floor=2)
+
+    def is_sysmodules(e):
+        return isinstance(e, ast.Attribute) and e.attr == "modules" and isinstance(e.value, ast.Name) and e.value.id == "sys"
+    n16 = 0
+    for q in sorted(ea.reachable):
+        f = ix.functions[q]
+        if isinstance(f.node, ast.Lambda):
+            continue
+        stores, evicts, restores = [], [], []
+        for n in walk_no_nested(f.node):
+            if isinstance(n, ast.Subscript) and is_sysmodules(n.value):
+                if isinstance(n.ctx, ast.Store):
+                    stores.append(n)
+                elif isinstance(n.ctx, ast.Del):
+                    evicts.append(n)
+            if isinstance(n, ast.Call) and isinstance(n.func, ast.Attribute) and is_sysmodules(n.func.value):
+                if n.func.attr in ("pop", "clear", "popitem"):
+                    evicts.append(n)
+                elif n.func.attr in ("setdefault", "update", "__setitem__"):
+                    restores.append(n)
+        if not (stores or evicts):
+            continue
+        handlers = [h for t in walk_no_nested(f.node) if isinstance(t, ast.Try) for h in t.handlers]
+
+        def in_reraising_handler(node):
+            for h in handlers:
+                if any(x is node for b in h.body for x in ast.walk(b)) and any(isinstance(x, ast.Raise) and x.exc is None for b in h.body for x in ast.walk(b)):
+                    return True
+            return False
+        for n in stores:
+            n16 += 1
+            cons = construct_of(f, f"sys.modules-store:{ast.unparse(n.slice)[:30]}")
+            loc = f"{f.path}:{n.lineno}"
+            if in_reraising_handler(n):
+                rep.ok("C16.16", cons, "restores an entry on the failure path", loc)
+            else:
+                rep.violation("C16.16", cons, f"`{ast.unparse(n)} = ..` registers the relatively imported pulse module under its bare name for the rest of the process: afterwards `from {ast.unparse(n.slice)} usepulses *` (absolute) succeeds although it raises ImportError in a fresh process", loc, witness="from .mygates usepulses *   (succeeds)\nfrom mygates usepulses *    (now succeeds; ModuleNotFoundError when processed first)")
+        for n in stores:
+            if in_reraising_handler(n):
+                continue
+            cons = construct_of(f, f"sys.modules-store-rollback:{ast.unparse(n.slice)[:30]}")
+            rolled = any(in_reraising_handler(e) for e in evicts)
+            if rolled:
+                rep.ok("C16.16", cons, "a re-raising handler removes the entry again when loading the module fails", f"{f.path}:{n.lineno}")
+            else:
+                rep.violation("C16.16", cons, f"`{ast.unparse(n)} = ..` is not rolled back when executing the module raises: a half-initialised module stays importable, so the same text fails differently (or succeeds) the second time", f"{f.path}:{n.lineno}")
+        for n in evicts:
+            n16 += 1
+            cons = construct_of(f, f"sys.modules-evict:{ast.unparse(n)[:40]}")
+            loc = f"{f.path}:{n.lineno}"
+            if in_reraising_handler(n):
+                rep.ok("C16.16", cons, "removes the half-initialised module this call registered, then re-raises", loc)
+                continue
+            # an eviction outside a handler must be remembered and restored by a re-raising handler
+            par_assign = [st for st in iter_stmts(f.body) if isinstance(st, ast.Assign) and any(x is n for x in ast.walk(st.value))]
+            restored = any(in_reraising_handler(r) for r in restores) or any(in_reraising_handler(s_) for s_ in stores)
+            if par_assign and restored:
+                rep.ok("C16.16", cons, "the evicted entry is kept and put back by a re-raising handler when the import fails", loc)
+            else:
+                rep.violation("C16.16", cons, f"`{ast.unparse(n)}` evicts an imported module and nothing puts it back when the import then fails: `from .numpy usepulses *` raises ImportError and leaves the process without numpy, so the next valid run fails (cannot load module more than once per process)", loc, witness="from .numpy usepulses *")
+    rep.analysed["sys_modules_sites"] = n16
+
 
 KNOWN_SUBMODULES = {
     ("importlib", "util"), ("importlib", "machinery"), ("importlib", "abc"), ("importlib", "resources"),
